@@ -193,7 +193,8 @@ class Partial(V):
 
 # --------------------------------------------------------------------------- arrays
 Row = z3.DeclareSort("Row")          # one particle's coordinates
-ELEM_SORT = {"real": z3.RealSort(), "bool": z3.BoolSort(), "int": z3.IntSort(), "row": Row}
+from .xreal import ER  # noqa: E402
+ELEM_SORT = {"real": z3.RealSort(), "bool": z3.BoolSort(), "int": z3.IntSort(), "row": Row, "xreal": ER}
 
 
 class Arr(V):
@@ -205,9 +206,16 @@ class Arr(V):
     meta  : namespace / dtype tokens etc. (engine-level, optional)
     """
 
-    def __init__(self, n, elem, at, key, meta=None):
+    def __init__(self, n, elem, at, key, meta=None, facts=None):
         self.n, self.elem, self.at, self.key = n, elem, at, key
         self.meta = dict(meta or {})
+        # facts: callables k -> z3 Bool that hold for every valid index k (pointwise schemas instantiated by the engine
+        # at the indices a goal mentions; no quantifier reaches the solver)
+        self.facts = list(facts or [])
+
+    def hyp(self, k):
+        import z3 as _z3
+        return _z3.And([f(k) for f in self.facts] + [_z3.BoolVal(True)])
 
     def __repr__(self):
         return f"Arr<{self.elem}>[{self.key[:60]}]"
